@@ -1483,7 +1483,7 @@ def main():
         sys.exit(replay(args.replay))
     tier = driver.tier_from(args.tier)
     seed = driver.seed_from_env()
-    total = args.scenarios or (6000 if tier == "quick" else 600000)
+    total = args.scenarios or (6000 if tier == "quick" else 300000)
     nshards = 96 if tier == "quick" else 1024
     per = (total + nshards - 1) // nshards
     payloads = [(seed, s, s * per, min(total, (s + 1) * per), tier)
